@@ -259,7 +259,23 @@ def deductive(check, tier):
     s.done()
 
 
+
+def long_inputs(check, tier):
+    from bounded.common import long_values
+    s = Suite(check, "C15.long", "the full method / split / splitlines / justify / join comparison with str on values with thousands of runs",
+              bound="<= 6000 characters")
+    for k, (label, v) in enumerate(long_values()):
+        s.case(label, sample=label)
+        try:
+            d = check_value(None, k % 2, value=v)
+        except Exception as e:      # noqa: BLE001
+            d = f"comparison raised {type(e).__name__}: {e}"
+        if d:
+            s.fail("C15.method.long", dict(value=label, order=k % 2), d[:300])
+    s.done()
+
 def run(check, tier, seed):
+    long_inputs(check, tier)
     deductive(check, tier)
     bounded(check, tier, seed)
     derived(check, tier, seed)
